@@ -7,7 +7,7 @@ from . import common, circ, simcorr, wavecorr as wc
 PID = 'C07'
 TARGETS = ['KyupyVerif.Props.C07']
 RULE = ('random circuits x {c_reuse} x {strip_forks} x capacities: (a) certificate: the Lean checker levelIndepB on the REAL ops of every level '
-        '(operands resolved through the memory map for stripped branches, scratch-slot writers renamed apart), the map certificate MapIn.check and the schedule certificate schedOKB (hypotheses of memory_any_schedule) on the REAL tables and a within-level permutation, and exact correspondence of the Lean '
+        '(operands resolved through the memory map for stripped branches, scratch-slot writers renamed apart), the footprint conditions modulo scratch MapIn.levelsIndepB / oneLevelB (hypotheses of level_threads_any_order; tag hyp:opsIndep, scratch-clash = a level with >= 2 scratch writers), the map certificate MapIn.check and the schedule certificate schedOKB (hypotheses of memory_any_schedule) on the REAL tables and a within-level permutation, and exact correspondence of the Lean '
         'levelisation with level_starts (via the SimOps model, C01/C08); (b) oracle: the rows of sim.ops are REALLY permuted inside every level '
         '(LogicSim m=2/8 and WaveSim) and the mock GPU launcher REALLY runs the (simulation, operation) threads of a level in random / reversed / '
         'sim-major order (WaveSimCuda with accumulators): all of c (outside the scratch slots), s and abuf must equal the canonical order. '
@@ -19,7 +19,9 @@ def theorems():
 
 
 def make_case(rng, thorough=False):
-    c = circ.rand_circuit(rng, n_gates=rng.randint(2, 22 if not thorough else 60))
+    # p_dangling 0.4 in a third of the cases: several gates with unconnected outputs (all write the scratch slot tmp_idx), so that
+    # levels with >= 2 scratch writers occur (audit-2 finding 3; counted by the tag hyp:opsIndep:scratch-clash)
+    c = circ.rand_circuit(rng, n_gates=rng.randint(2, 22 if not thorough else 60), p_dangling=rng.choice([0.1, 0.1, 0.4]))
     return {'circuit': base64.b64encode(pickle.dumps(c)).decode(), 'strip': rng.random() < 0.4, 'reuse': rng.random() < 0.6,
             'caps': rng.choice([4, 8, 16]), 'pseed': rng.randint(0, 2**31 - 1), 'sseed': rng.randint(0, 2**31 - 1),
             'order': rng.choice(['random', 'reversed', 'sim-major', 'random'])}
@@ -211,7 +213,13 @@ def cert(case):
         a = int(so.level_starts[1]); bad[a - 1], bad[a] = bad[a], bad[a - 1]
     out = common.run_driver([f'net {circ.dump_net(c)}', f"mapok {int(case['strip'])} 4 {rest}",
                              f"schedok {int(case['strip'])} 4 {rest} {','.join(map(str, sched))}",
-                             f"schedok {int(case['strip'])} 4 {rest} {','.join(map(str, bad))}"])
+                             f"schedok {int(case['strip'])} 4 {rest} {','.join(map(str, bad))}",
+                             f"opsindep {int(case['strip'])} 4 {rest}"])
+    # hypotheses of C07.level_threads_any_order / C06.level_any_thread_order_wave on the REAL tables: footprint conditions modulo the
+    # scratch slots (MapIn.levelsIndepB; a theorem from the map certificate, evaluated here independently), every
+    # (level_starts[i], level_stops[i]) inside one level (oneLevelB) and inside the program, c_caps_min >= 2
+    kv = dict(t.split('=') for t in out[4].split()) if '=' in out[4] else {}
+    cert.last_clash = int(kv.get('clash', 0))
     # tie of writer_before_reader_simops / memory_any_schedule_all_circuits: rows, level_starts and the map of the Lean SimOps model
     # (genOps, levelise, memMap) are EXACTLY the real ones on this case
     eq, _real, _model, diff, _ = simcorr.compare(c, case['strip'], case['reuse'], case['caps'], 4)
@@ -219,14 +227,19 @@ def cert(case):
     if out[1] != 'ok': ans = f'map certificate on the real tables: {out[1]}'
     elif out[2] != 'ok': ans = 'schedOKB rejects a permutation inside the levels'
     elif len(so.level_starts) > 1 and out[3] != 'FAIL': ans = 'schedOKB accepts an order that crosses a level boundary'
+    elif not (kv.get('indep') == 'true' and kv.get('onelevel') == 'true' and kv.get('capsmin') == 'true'):
+        ans = f'hypotheses of level_threads_any_order on the real tables: {out[4]}'
     return ans, max((int(b) - int(a)) for a, b in zip(so.level_starts, so.level_stops))
 
 
 def oracle(ck, n, thorough=False):
     for it in range(n):
         cs = make_case(ck.rng, thorough)
+        clash, ans = 0, 'raised'
         try:
+            cert.last_clash = 0
             ans, widest = cert(cs)
+            clash = cert.last_clash
             if ans != 'ok':
                 ck.broken_tie('level certificate levelIndepB on the real ops', ans, inp={k: v for k, v in cs.items() if k != 'circuit'})
             ok, obs, exp = eval_case(cs)
@@ -236,7 +249,9 @@ def oracle(ck, n, thorough=False):
         hyp_tag = common.allcirc_hyp(ck, pickle.loads(base64.b64decode(cs['circuit'])), [cs['strip']], 'C07')
         ck.case(key=(cs['circuit'][:80], cs['strip'], cs['reuse'], cs['pseed']), nontrivial=widest >= 2,
                 sample={k: v for k, v in cs.items() if k != 'circuit'},
-                tag=[f"strip:{cs['strip']}", f"reuse:{cs['reuse']}", f"order:{cs['order']}", f'widest-level:{min(widest, 8)}', hyp_tag])
+                tag=[f"strip:{cs['strip']}", f"reuse:{cs['reuse']}", f"order:{cs['order']}", f'widest-level:{min(widest, 8)}', hyp_tag,
+                     'hyp:opsIndep:ok' if ans == 'ok' else 'hyp:opsIndep:outside',
+                     'hyp:opsIndep:scratch-clash' if clash else 'hyp:opsIndep:no-clash'])
         if not ok:
             ck.violation('schedule', 'results depend on the order of operations / threads inside a level', cs, obs, exp)
 
